@@ -30,6 +30,7 @@ type tierSpec struct {
 	MapOrders  bool           `json:"maporders"`
 	SelectChoice bool         `json:"selectchoice"`
 	EnvLazy    bool           `json:"envlazy"`
+	NPBound    int            `json:"npbound"`
 	Skip       bool           `json:"skip"`
 	Witnesses  int            `json:"witness_replays"`
 }
@@ -512,6 +513,7 @@ func runCheck(prop, tier string, seed int, repoDir string, spec propSpec, outDir
 		cfg.MapOrders = ts.MapOrders
 		cfg.SelectChoice = ts.SelectChoice
 		cfg.EnvLazy = ts.EnvLazy
+		cfg.NPBound = ts.NPBound
 		e.cfg = cfg
 		e.params = ts.Params
 		e.wantModels = true
@@ -525,7 +527,7 @@ func runCheck(prop, tier string, seed int, repoDir string, spec propSpec, outDir
 			Discharged: res.Discharged, Unknown: res.ObligUnknown, Checks: res.Checks, Witnesses: res.Witnesses, Decisions: res.Decisions, Steps: res.Steps,
 			SolverQ: res.Solver.Queries, SolverTimeS: res.Solver.TotalTime.Seconds(), SolverMaxS: res.Solver.MaxTime.Seconds(), WallS: res.Wall.Seconds(),
 			Solver: cfg.Solver,
-			Bounds: map[string]int{"max_steps_per_path": cfg.MaxSteps, "loop_unwind": cfg.MaxLoop, "ctx_switch_bound": cfg.CtxBound, "env_fires": cfg.EnvFires, "sched_mode": cfg.SchedMode}}
+			Bounds: map[string]int{"max_steps_per_path": cfg.MaxSteps, "loop_unwind": cfg.MaxLoop, "ctx_switch_bound": cfg.CtxBound, "free_sched_choice_bound": cfg.NPBound, "env_fires": cfg.EnvFires, "sched_mode": cfg.SchedMode}}
 		for _, f := range res.Functions {
 			funcs[f] = true
 		}
